@@ -199,10 +199,14 @@ class SGraph:
         """
         dependencies = as_tuple(dependencies)
         for dependency in item.create_dependency_items(item_factory=item_factory, config=config):
-            if not (dependency in dependencies or SchedulerConfig.match_item_keys(dependency.name, item.block)):
+            if not (dependency in dependencies or SchedulerConfig.match_item_keys(
+                    dependency.name, item.block, use_pattern_matching=True, match_item_parents=True
+            )):
                 dependency.config['is_ignored'] = (
                     item.is_ignored or
-                    bool(SchedulerConfig.match_item_keys(dependency.name, item.ignore, match_item_parents=True))
+                    bool(SchedulerConfig.match_item_keys(
+                        dependency.name, item.ignore, use_pattern_matching=True, match_item_parents=True
+                    ))
                 )
                 dependencies += (dependency,)
 
